@@ -372,6 +372,23 @@ def run(ctx, res):
     from . import witness
     wprogs = witness.run_c10(ctx, res, check_builder, check_actions, stats)
     _flush_action_counts(res, rid4, stats)
+    # "the same holds when a GLR tree is replayed through the builder, including right-nulled reductions": the two runtime
+    # clauses behind that sentence are decided on MIR by C03-R6 and C07-S8 and shared here
+    from . import c03, c07, report, mir
+    rid6 = res.rule("C10-R6", "GLR replay: Tree::build walks a forest tree in post-order, children left to right, through the LR "
+                    "builder protocol (C07-S8); the reducer extends the right-nulled children of the solution it matched, not "
+                    "of another one (C03-R6)", floor=3)
+    for mod, only in ((c03, ["C03-R6"]), (c07, ["C07-S8"])):
+        sub = report.Result("C10", ctx.tier)
+        try:
+            mod.run(ctx, sub)
+        except mir.AnchorLost as e:
+            res.undecided(rid6, str(e))
+            continue
+        c07.adopt(res, rid6, sub, only=only)
+        for u in sub.undecided_list:
+            if any(u["rule"].startswith(o) for o in only):
+                res.undecided(rid6, u["what"], u.get("where"))
     res.level = LEVEL
     res.extra.update({"programs": programs + wprogs, "disagreements_checked": stats["arms"] + stats["actions"],
                       "stats": stats, "witness_programs": wprogs})
